@@ -68,6 +68,7 @@ def cells(tier):
                 'fqdn': 1, 'fair': 1, 'svc': 1})
     out.append({'kind': 'pool421', 'size': 1})
     out.append({'kind': 'pool421', 'size': 2})
+    out.append({'kind': 'pool421', 'size': 1, 'eod': 1})
     out.append({'kind': 'deque', 'L': 4})
     return out
 
@@ -171,6 +172,14 @@ def make_peer(w, n):
             if w.service_time is not None:
                 # the server takes a while to accept the message
                 gevent.sleep(w.service_time(state['sender']))
+            if w.outcome_of(state['sender']) == 'eod-then-421':
+                # "queued, and I am closing": the 421 rides in the segment
+                # of the 250 (or right behind it), the socket stays open
+                peer.client.use_fd = True
+                return ('reply', '250', ['2.0.0 delivered for ' +
+                                         (state['sender'] or '?')],
+                        b'421 4.4.2 idle too long\r\n') + \
+                    (('same-segment',) if w.outcome_of('421-how') else ())
             return ('reply', '250', ['2.0.0 delivered for ' +
                                      (state['sender'] or '?')])
         if stage == 'MAIL':
@@ -357,7 +366,11 @@ def run_pool421(cell):
     qc.fresh_hub()
     qc.patch_env()
     nc.reset()
-    w = World(cell['size'], 1, lambda key: 'ok', None)
+    with_eod = api.choice('with_eod', 3) if cell.get('eod') else 0
+    plan = {}
+    if with_eod:
+        plan = {'s0@z': 'eod-then-421', '421-how': with_eod == 2}
+    w = World(cell['size'], 1, lambda key: plan.get(key, 'ok'), None)
     outs = {}
     t1 = api.real('t1', 1, 4)
     t_421 = api.real('t421', 0, 4)
@@ -377,6 +390,8 @@ def run_pool421(cell):
     close_fault = api.choice('close_raises', 2)
 
     def server_timeout():
+        if with_eod:
+            return
         gevent.sleep(t_421)
         for p in w.peers:
             if p is not None and not p.client.closed:
@@ -397,11 +412,17 @@ def run_pool421(cell):
     gevent.spawn(server_timeout)
     gevent.spawn(go, 1, t1)
     qc.run_until_quiescent()
-    info = dict(size=cell['size'])
+    info = dict(size=cell['size'], with_eod=with_eod)
     for i in (0, 1):
         if api.prove(i in outs, 'request-stranded', request=i, **info):
             api.prove(outs[i][0] != 'other', 'non-relay-exception',
                       exc=type(outs[i][1]).__name__, **info)
+            if outs[i][0] == 'relay-error':
+                # the 421 was sent before this envelope was offered
+                api.prove(i == 0 or 'idle too long' not in
+                          (outs[i][1].reply.message or ''),
+                          'answered-with-a-reply-sent-before-the-envelope',
+                          request=i, **info)
     if cell['size']:
         api.prove(w.max_open <= cell['size'],
                   'more-connections-than-pool-size', **info)
